@@ -94,7 +94,7 @@ Reset ==
            /\ hist' = Append(hist, [call |-> "reset", target |-> NullTarget, out |-> "ok", done |-> e2.done,
                                     now |-> e2.now, nlv |-> Deposit, pre |-> NaN, post |-> NaN, trades |-> <<>>,
                                     interest |-> Zero, comm |-> Zero, exec |-> NullTarget, pos |-> s1.st.pos,
-                                    stamp |-> NoT, entries |-> 0, snap |-> <<>>, traded |-> FALSE, edge |-> {}])
+                                    stamp |-> NoT, entries |-> 0, snap |-> <<>>, traded |-> FALSE, edge |-> {}, spread |-> Zero])
     /\ UNCHANGED cfg
 
 \* independent replay: NLV from deposit, what was paid, fees, interest and the current quotes only
@@ -105,6 +105,13 @@ SumPos(s, hh, cs) ==
              v == IF IsZero(s.pos[c]) THEN Zero ELSE Mul(s.pos[c], Liq(s, c))
          IN  Add(Mul(RM(Mult[c]), Sub(v, hh.paid[c])), SumPos(s, hh, cs \ {c}))
 Ideal(s, hh) == Add(Sub(Add(Deposit, hh.interest), hh.fees), SumPos(s, hh, C))
+
+\* cost of the bid-ask spread of a set of trades at the quotes of state s: |quantity| x multiplier x (ask - bid)
+RECURSIVE SpreadCost(_, _, _)
+SpreadCost(s, trades, cs) ==
+    IF cs = {} THEN Zero
+    ELSE LET c == CHOOSE x \in cs : TRUE
+         IN  Add(Mul(Mul(RAbs(trades[c]), RM(Mult[c])), Sub(s.ask[c], s.bid[c])), SpreadCost(s, trades, cs \ {c}))
 
 \* weights keyed by concrete contracts: the chain key becomes its current lead (static_hashing)
 Resolved(tgt, now) ==
@@ -123,7 +130,7 @@ StepF(tgt) ==
           rec |-> [call |-> "step", target |-> tgt, out |-> "ended", done |-> TRUE, now |-> env.now,
                    nlv |-> NaN, pre |-> NaN, post |-> NaN, trades |-> <<>>, interest |-> Zero,
                    comm |-> Zero, exec |-> NullTarget, pos |-> st.pos, stamp |-> NoT, entries |-> Len(track), snap |-> <<>>,
-                   traded |-> FALSE, edge |-> {}]]
+                   traded |-> FALSE, edge |-> {}, spread |-> Zero]]
     ELSE
     LET q1  == <<tgt>> \o env.queue
         due == LastOf(q1)
@@ -170,6 +177,7 @@ StepF(tgt) ==
                   trades |-> r.trades, interest |-> r.interest, comm |-> r.comm, exec |-> req.alloc,
                   pos |-> v.st.pos, stamp |-> IF executed THEN now1 ELSE NoT, entries |-> Len(track1),
                   traded |-> tradesDone, edge |-> r.edge,
+                  spread |-> IF executed THEN SpreadCost(s1.st, r.trades, DOMAIN r.trades) ELSE Zero,
                   snap |-> IF executed THEN [prepos |-> r.prest.pos, precash |-> r.prest.cash, premrg |-> r.prest.mrg,
                                              postpos |-> r.postst.pos, postcash |-> r.postst.cash, postmrg |-> r.postst.mrg]
                            ELSE <<>>]]
